@@ -376,6 +376,7 @@ pub fn run_case(base: &Base, what: &Value, rep: &mut Report, trace: &mut Vec<Val
         let _ = writeln!(j, "{}", json!({"kind":"fuzz-case","entry":base.entry,"cfg":base.cfg,"script":script,"what":what}));
         let _ = j.flush();
     }
+    set_context(&format!("entry {} cfg {}", base.entry, base.cfg));
     let rec = call_entry(&base.entry, &base.cfg, &script);
     rep.evaluations += 1;
     let fam = family_of(&base.entry);
